@@ -388,6 +388,9 @@ type lockOpts struct {
 	// Backend adjusts the recording backend before the server starts; Patience: see h.Live.Patience.
 	Backend  func(be *h.Backend)
 	Patience time.Duration
+	// Cfg adjusts the server configuration; Pace: see h.Live.Pace.
+	Cfg  func(cfg *h.Config)
+	Pace time.Duration
 }
 
 func runLockstepOpt(prefix string, pc ref.PConfig, alpha []ref.Cmd, hist []int, opts *lockOpts) *histResult {
@@ -396,12 +399,16 @@ func runLockstepOpt(prefix string, pc ref.PConfig, alpha []ref.Cmd, hist []int, 
 	if opts != nil && opts.Backend != nil {
 		opts.Backend(be)
 	}
+	if opts != nil && opts.Cfg != nil {
+		opts.Cfg(&cfg)
+	}
 	defer h.GuardEnter(fmt.Sprintf("lock-step history, config %+v: [%s]", pc, histNames(alpha, hist)))()
 	var live *h.Live
 	leak, pan := h.Bubble(func() {
 		live = h.NewLive(cfg, be, pc.ImplicitTLS)
 		if opts != nil {
 			live.Patience = opts.Patience
+			live.Pace = opts.Pace
 		}
 		st := ref.PState{TLS: pc.ImplicitTLS, Bin: "no"}
 		g := live.Greeting()
